@@ -110,8 +110,16 @@ def check(env, rep, tier):
             if not (isinstance(payload, dict) and payload.get("input") == "arg"):
                 return False, "Unknown(..) does not carry the input number"
             return True, ""
-        num_to_name(prog, rep, "C05.1", "core::convert::From", "packet::CoapOption", "u16", "from", REG["options"], wc_unknown)
-        rev = name_to_num(prog, rep, "C05.1", "core::convert::From", "u16", "packet::CoapOption", "from", REG["options"])
+        # options IANA has registered that the crate has no variant for (yet): a variant added under such a name is
+        # expected to carry that option's number (adding Hop-Limit = 16 is not a violation; adding it as 17 is)
+        opt_expected = dict(REG["options"])
+        norm_ = lambda x: "".join(ch for ch in x.lower() if ch.isalnum())
+        beyond = {norm_(nm_): int(n_) for n_, nm_ in REG.get("options_registered_beyond_the_crate", {}).items()}
+        for v_ in (prog.adts.get("packet::CoapOption") or {"variants": []})["variants"]:
+            if v_["name"] not in opt_expected and norm_(v_["name"]) in beyond:
+                opt_expected[v_["name"]] = beyond[norm_(v_["name"])]
+        num_to_name(prog, rep, "C05.1", "core::convert::From", "packet::CoapOption", "u16", "from", opt_expected, wc_unknown)
+        rev = name_to_num(prog, rep, "C05.1", "core::convert::From", "u16", "packet::CoapOption", "from", opt_expected)
         if rev is not None:
             hits = rev.get(("Unknown",), [])
             ok = len(hits) == 1 and isinstance(hits[0][0], dict) and hits[0][0].get("input") == "arg.Unknown.0"
@@ -123,7 +131,7 @@ def check(env, rep, tier):
             names = [v["name"] for v in a["variants"] if v["name"] != "Unknown"]
             rep.floor("C05.1", "named options", len(names), 21)
             for nm in names:
-                rep.ob("C05.1", "registry|%s" % nm, nm in REG["options"], "option variant %s has no registry entry" % nm)
+                rep.ob("C05.1", "registry|%s" % nm, nm in opt_expected, "option variant %s has no registry entry" % nm)
         # ---- C05.2 content formats
         def wc_err(r):
             p, payload = leaf(r["ret"])
